@@ -237,6 +237,22 @@ func checkEngineB(s *Sim, hist []*dcsHist) {
 							eph = true
 						}
 					}
+					// an overwrite of a key that was a plain node when the write arrived leaves it plain
+					// ("set overwrites"; neither kind of key is turned into the other): only a key that
+					// this call itself created must be ephemeral
+					if !eph {
+						created := false
+						for i := range log {
+							e := &log[i]
+							if e.Seq > h.InvSeq && e.Seq <= h.RetSeq && e.Err == 0 && e.Inc == h.Inc && e.Path == full && e.Op == "create" {
+								created = true
+							}
+						}
+						if !created {
+							m.probe("c15_set_ephemeral_over_existing_plain_key")
+							eph = true
+						}
+					}
 					if !eph {
 						m.violate("C15", "set_eph_left_plain", "set-ephemeral-ok-on-plain-key", fmt.Sprintf("%s SetEphemeral(%q) returned ok but the key is not ephemeral", h.Inc, h.Path))
 					}
